@@ -104,7 +104,9 @@ def _case(draw):
     opts = {"params": ["autogen-snippets=False", f"transport={t}"], "snippets": False, "transport": t,
             "service_yaml": {"type": "google.api.Service", "config_version": 3, "name": host,
                              "publishing": {"method_settings": settings}}}
-    if t == "grpc" and draw(st.integers(0, 1)) == 0:
+    root_ = M.common_package(api)
+    sub_svc = any(f["package"] != root_ for f, _s, _m in M.all_methods(api))
+    if t == "grpc" and draw(st.integers(0, 1)) == 0 and not sub_svc:      # (ads + a service in a proto sub-package: finding F-subpackage-services)
         # the alternative (ads) template set has its own client template (sync client only)
         opts["params"] += ["python-gapic-templates=ads-templates", "old-naming"]
         opts["old_naming"] = True
